@@ -47,3 +47,12 @@ Definition run_io_moved (strict : bool) (items : list ioitem) (decoy : bytes) : 
               m_current := {| v_fds := []; v_alive := true; v_io := decoy |} |} in
   JL [ JB (k_io items); jv_outcome jv_zs (proc_io_counters strict m);
        (if forallb ioitem_ok items then jv_outcome jv_zs (spec_io items) else jnone) ].
+
+(* live cases: real descriptors of the worker, opened with open(2) flags [req]; the harness predicts the
+   kernel's flag word as text, Coq checks that text against [k_open_flags] (third component) *)
+Definition run_live (es : list (kfd * Z)) : jv :=
+  let ks := map fst es in
+  JL [ JL (map (fun e => JB (k_fdinfo e)) ks);
+       jv_outcome jv_rows (open_files (map to_model ks) true);
+       (if forallb wf_kfd ks && no_mode3_b ks then JC "Val" [jv_rows (spec_rows ks)] else jnone);
+       JL (map (fun er => JB (if oct_val (k_flags (fst er)) =? k_open_flags (snd er) true then bs "ok" else bs "BAD")) es) ].
